@@ -11,7 +11,7 @@ ASSUME = [
 
 
 def run_generated(ctx, prop, module, rule, must_accept=True, post=None, level="translation_validation", extra_cov=None,
-                  prepare=None, il_subs=None, c_subs=None):
+                  prepare=None, il_subs=None, c_subs=None, mode="pool"):
     progs, g = tvcheck.generate(module, ctx.seed, ctx.tier)
     sub_errors = {}
     if isinstance(progs, dict):
@@ -28,7 +28,7 @@ def run_generated(ctx, prop, module, rule, must_accept=True, post=None, level="t
         progs = [p for p in progs if p["id"] == pid] or ([rp["program"]] if "program" in rp else progs[:3])
     if prepare:
         progs = prepare(progs)
-    res = tvcheck.run_batch(ctx, progs, il_subs=il_subs, c_subs=c_subs)
+    res = tvcheck.run_batch(ctx, progs, il_subs=il_subs, c_subs=c_subs, mode=mode)
     cnt = tvcheck.classify_tv(ctx, res)
     nrep = sum(len(rep["v"]) for rep in res.reports)
     cnt["agree"] = res.states // 2 * 2 - nrep if False else max(0, sum(c["nin"] * len(c["obs"]) for _, c in res.cases.values()) - nrep)
